@@ -57,9 +57,21 @@ def _(self, state, action, extra_parameters=None, cache=None):
     ensures(rec_has(result.metadata, "is_error"))
 
 
-@assumed("liquer.context.Context.create_initial_state", params=dict(self=CX, input_value=Opt(Data)), returns=ST, returns_fresh=True)
+@contract("liquer.state.State.with_data", params=dict(self=ST, data=Data), returns=ST,
+          opaque={"type_identifier_of": Opt(Str), "data_characteristics": Any})
+def _(self, data):
+    modifies(self.data, self.metadata)
+    ensures(result is self and self.data == data, "the-data-is-kept-as-given")
+    ensures(self.metadata == rec_set(rec_set(old(self.metadata), "type_identifier", rec_get(self.metadata, "type_identifier")),
+                                     "data_characteristics", rec_get(self.metadata, "data_characteristics")), "only-the-type-description-changes")
+
+
+@contract("liquer.context.Context.create_initial_state", params=dict(self=CX, input_value=Opt(Data)), returns=ST, returns_fresh=True)
 def _(self, input_value=None):
-    ensures(fresh_ref(result) and rec_has(result.metadata, "is_error") and not rec_get(result.metadata, "is_error"))
+    ensures(fresh_ref(result) and rec_has(result.metadata, "is_error") and not rec_get(result.metadata, "is_error"), "a-new-successful-state")
+    ensures(rec_get(result.metadata, "query") == "", "of-the-empty-query")
+    ensures(implies(not isnone(input_value), result.data == unopt(input_value)), "C01:the-supplied-input-value-reaches-the-first-action")
+    ensures(volatile_of(result.metadata) == (not isnone(input_value)), "C05:volatile-exactly-when-a-value-was-injected")
 
 
 @assumed("liquer.context.Context.evaluate_resource", params=dict(self=CX, resource_query=Any), returns=ST)
@@ -128,7 +140,8 @@ def _(self, query, cache=None, description=None, store_key=None, store_to=None, 
                     log_count("Cache.remove") > 0), "a-result-that-is-not-admitted-evicts-the-stale-entry")
 
 
-prop("C05", fucs=["liquer.context.Context.evaluate"])
+prop("C05", fucs=["liquer.context.Context.evaluate", "liquer.context.Context.create_initial_state"])
+prop("C01", fucs=["liquer.context.Context.create_initial_state", "liquer.state.State.with_data"])
 prop("C04", fucs=["liquer.context.Context.evaluate"])
 prop("C09", fucs=["liquer.context.Context.evaluate"])
 prop("C06", fucs=["liquer.context.Context.evaluate"])
